@@ -536,11 +536,11 @@ def judge_driver(plan, res):
       if "exc" not in ev or "simulated source failure" not in ev["exc"]:
         viol.append(_v("source_fault_swallowed", i, "source",
                        "the Source raised but TestSource returned %r" %
-                       (ev.get("ret"),)))
+                       (ev.get("ret"),), known=kn))
       if len(ev.get("pulls") or []) != expect_pulls:
         viol.append(_v("pull_count", i, "before_fault",
                        "Source pulled %d times before its fault, model %d" %
-                       (len(ev.get("pulls") or []), expect_pulls)))
+                       (len(ev.get("pulls") or []), expect_pulls), known=kn))
       continue
     if "overrun" in ev and not f9_hit:
       viol.append(_v("liveness", i, "overrun",
